@@ -441,7 +441,9 @@ func c14CheckPage(t *core.T, f c14Form, base *htmlform.Form, page []byte, u, rel
 
 // ---------- metadata ----------
 
-var c14Schemes = []struct{ name, loc string }{
+type c14Scheme struct{ name, loc string }
+
+var c14Schemes = []c14Scheme{
 	{"https", "https://ok.example.com/x"}, {"http", "http://ok.example.com/x"}, {"HTTP-upper", "HTTP://ok.example.com/x"}, {"javascript", "javascript:alert(1)"},
 	{"JaVaScRiPt", "JaVaScRiPt:alert(1)"}, {"javascript-slashes", "javascript://ok.example.com/%0Aalert(1)"}, {"data", "data:text/html,<script>alert(1)</script>"}, {"vbscript", "vbscript:msgbox(1)"},
 	{"file", "file:///etc/passwd"}, {"empty", ""}, {"relative", "/saml/acs"}, {"scheme-relative", "//evil.example.net/x"}, {"leading-space-js", " javascript:alert(1)"},
@@ -452,10 +454,12 @@ var c14Schemes = []struct{ name, loc string }{
 var c14Bindings = []string{saml.HTTPPostBinding, saml.HTTPRedirectBinding, saml.HTTPArtifactBinding, saml.SOAPBinding, saml.SOAPBindingV1, "urn:example:unknown", "urn:mace:shibboleth:1.0:profiles:AuthnRequest"}
 
 // where an endpoint element can live: role descriptor element name + endpoint element name + indexed?
-var c14Slots = []struct {
+type c14Slot struct {
 	role, el string
 	indexed  bool
-}{
+}
+
+var c14Slots = []c14Slot{
 	{"IDPSSODescriptor", "SingleSignOnService", false}, {"IDPSSODescriptor", "SingleLogoutService", false}, {"IDPSSODescriptor", "ArtifactResolutionService", true},
 	{"IDPSSODescriptor", "ManageNameIDService", false}, {"IDPSSODescriptor", "NameIDMappingService", false}, {"IDPSSODescriptor", "AssertionIDRequestService", false},
 	{"SPSSODescriptor", "AssertionConsumerService", true}, {"SPSSODescriptor", "SingleLogoutService", false}, {"SPSSODescriptor", "ArtifactResolutionService", true}, {"SPSSODescriptor", "ManageNameIDService", false},
@@ -507,7 +511,7 @@ func collectEndpoints(v reflect.Value, out *[][3]string) {
 
 func c14Metadata(c *core.Ctx) {
 	c.Group("metadata-schemes")
-	known := map[string]bool{saml.HTTPPostBinding: true, saml.HTTPRedirectBinding: true, saml.HTTPArtifactBinding: true, saml.SOAPBinding: true, saml.SOAPBindingV1: true}
+	body := c14MetadataBody(map[string]bool{saml.HTTPPostBinding: true, saml.HTTPRedirectBinding: true, saml.HTTPArtifactBinding: true, saml.SOAPBinding: true, saml.SOAPBindingV1: true})
 	for _, slot := range c14Slots {
 		for _, b := range c14Bindings {
 			for _, sch := range c14Schemes {
@@ -515,101 +519,128 @@ func c14Metadata(c *core.Ctx) {
 					for _, wrap := range []bool{false, true} {
 						slot, b, sch, attr, wrap := slot, b, sch, attr, wrap
 						key := fmt.Sprintf("md/%s/%s/%s/%s/%s/entities=%v", slot.role, slot.el, b[strings.LastIndex(b, ":")+1:], sch.name, attr, wrap)
-						c.Case(key, func(t *core.T) {
-							t.NonTrivial()
-							loc, rloc := "https://ok.example.com/loc", ""
-							switch attr {
-							case "Location":
-								loc = sch.loc
-							case "ResponseLocation":
-								rloc = sch.loc
-							case "both":
-								loc, rloc = sch.loc, sch.loc
-							case "Location+valid-ResponseLocation": // a well-formed ResponseLocation next to the hostile Location
-								loc, rloc = sch.loc, "https://ok.example.com/return"
-							case "valid-Location+ResponseLocation":
-								loc, rloc = "https://ok.example.com/loc", sch.loc
-							}
-							ep := fmt.Sprintf(`<%s Binding="%s" Location="%s"`, slot.el, b, xmlAttrEscape(loc))
-							if attr != "Location" {
-								ep += fmt.Sprintf(` ResponseLocation="%s"`, xmlAttrEscape(rloc))
-							}
-							if slot.indexed {
-								ep += ` index="1"`
-							}
-							ep += "/>"
-							roles := fmt.Sprintf(`<%s protocolSupportEnumeration="urn:oasis:names:tc:SAML:2.0:protocol">%s</%s>`, slot.role, ep, slot.role)
-							// ParseMetadata / getSPMetadata look for IDP / SP descriptors inside EntitiesDescriptor
-							extra := `<IDPSSODescriptor protocolSupportEnumeration="urn:oasis:names:tc:SAML:2.0:protocol"><SingleSignOnService Binding="urn:oasis:names:tc:SAML:2.0:bindings:HTTP-POST" Location="https://ok.example.com/sso"/></IDPSSODescriptor>` +
-								`<SPSSODescriptor protocolSupportEnumeration="urn:oasis:names:tc:SAML:2.0:protocol"><AssertionConsumerService Binding="urn:oasis:names:tc:SAML:2.0:bindings:HTTP-POST" Location="https://ok.example.com/acs" index="9"/></SPSSODescriptor>`
-							ed := `<EntityDescriptor xmlns="urn:oasis:names:tc:SAML:2.0:metadata" entityID="https://peer.example.com/">` + roles + extra + `</EntityDescriptor>`
-							doc := ed
-							if wrap {
-								doc = `<EntitiesDescriptor xmlns="urn:oasis:names:tc:SAML:2.0:metadata">` + ed + `</EntitiesDescriptor>`
-							}
-							check := func(parser string, v interface{}, err error) {
-								t.Impl(1)
-								if err != nil {
-									t.Outcome("parse-failed")
-									return
-								}
-								var eps [][3]string
-								collectEndpoints(reflect.ValueOf(v), &eps)
-								for _, e := range eps {
-									for i, l := range []string{e[1], e[2]} {
-										what := []string{"Location", "ResponseLocation"}[i]
-										if l == "" {
-											continue
-										}
-										if !known[e[0]] {
-											t.Fail("C14/metadata/"+parser+"/unknown-binding-location-kept", "binding %q is unknown but %s %q survived parsing", e[0], what, l)
-											t.Input("metadata", doc)
-											continue
-										}
-										if sc := schemeOf(l); sc != "http" && sc != "https" {
-											t.Fail("C14/metadata/"+parser+"/non-http-location-accepted", "%s %q (scheme %q) of a %s endpoint survived parsing", what, l, sc, e[0])
-											t.Input("metadata", doc)
-										} else if pu, perr := url.Parse(l); perr != nil || pu.Scheme != "http" && pu.Scheme != "https" {
-											t.Fail("C14/metadata/"+parser+"/non-http-location-accepted", "%s %q does not parse as an http(s) URL", what, l)
-											t.Input("metadata", doc)
-										}
-									}
-								}
-								t.Outcome("parsed")
-							}
-							t.Compared()
-							_, p := guard(func() error {
-								if !wrap {
-									var v saml.EntityDescriptor
-									err := xml.Unmarshal([]byte(doc), &v)
-									check("xml.Unmarshal", &v, err)
-								} else {
-									var v saml.EntitiesDescriptor
-									err := xml.Unmarshal([]byte(doc), &v)
-									check("xml.Unmarshal", &v, err)
-								}
-								v2, err := samlsp.ParseMetadata([]byte(doc))
-								check("samlsp.ParseMetadata", v2, err)
-								// samlidp PUT /services/x then read back what was registered
-								srv, serr := samlidp.New(samlidp.Options{URL: harness.MustURL("https://idp.example.com"), Key: samlgen.Key("idp1").Key, Certificate: samlgen.Key("idp1").Cert, Store: &samlidp.MemoryStore{}, Logger: harness.NullLogger{}})
-								if serr == nil {
-									w := httptest.NewRecorder()
-									srv.ServeHTTP(w, httptest.NewRequest("PUT", "https://idp.example.com/services/x", strings.NewReader(doc)))
-									md, gerr := srv.GetServiceProvider(nil, "https://peer.example.com/")
-									if w.Code < 300 && gerr == nil {
-										check("samlidp.PUT", md, nil)
-									} else {
-										check("samlidp.PUT", nil, fmt.Errorf("status %d", w.Code))
-									}
-								}
-								return nil
-							})
-							if p != "" {
-								t.Fail("C14/metadata/panic@"+p[strings.LastIndex(p, "@")+1:], "metadata parser panicked: %s", p)
-							}
-						})
+						c.Case(key, func(t *core.T) { body(t, slot, b, sch, attr, wrap, ` index="1"`) })
 					}
 				}
+			}
+		}
+	}
+	// the other attributes of an indexed endpoint in every form a metadata author may write (or get wrong), next to a hostile location:
+	// whatever the parser does about those attributes, a location that survives is http(s)
+	c.Group("metadata-schemes-x-index-forms")
+	idxForms := []string{``, ` index=""`, ` index=" 1"`, ` index="+1"`, ` index="01"`, ` index="-1"`, ` index="first"`, ` index="0x1"`, ` index="1.0"`, ` index="١"`,
+		` index="99999999999999999999"`, ` index="1" isDefault="true"`, ` index="1" isDefault="1"`, ` index="1" isDefault="maybe"`, ` index="1" isDefault=""`, ` index="one" isDefault="true"`}
+	for _, slot := range c14Slots {
+		if !slot.indexed {
+			continue
+		}
+		for _, b := range c14Bindings {
+			for _, sch := range c14Schemes {
+				for _, attr := range []string{"Location", "ResponseLocation"} {
+					for xi, idx := range idxForms {
+						slot, b, sch, attr, idx := slot, b, sch, attr, idx
+						key := fmt.Sprintf("md-index-forms/%s/%s/%s/%s/%s/form=%d", slot.role, slot.el, b[strings.LastIndex(b, ":")+1:], sch.name, attr, xi)
+						c.Case(key, func(t *core.T) { body(t, slot, b, sch, attr, false, idx) })
+					}
+				}
+			}
+		}
+	}
+}
+
+func c14MetadataBody(known map[string]bool) func(t *core.T, slot c14Slot, b string, sch c14Scheme, attr string, wrap bool, idxAttrs string) {
+	return func(t *core.T, slot c14Slot, b string, sch c14Scheme, attr string, wrap bool, idxAttrs string) {
+		{
+			t.NonTrivial()
+			loc, rloc := "https://ok.example.com/loc", ""
+			switch attr {
+			case "Location":
+				loc = sch.loc
+			case "ResponseLocation":
+				rloc = sch.loc
+			case "both":
+				loc, rloc = sch.loc, sch.loc
+			case "Location+valid-ResponseLocation": // a well-formed ResponseLocation next to the hostile Location
+				loc, rloc = sch.loc, "https://ok.example.com/return"
+			case "valid-Location+ResponseLocation":
+				loc, rloc = "https://ok.example.com/loc", sch.loc
+			}
+			ep := fmt.Sprintf(`<%s Binding="%s" Location="%s"`, slot.el, b, xmlAttrEscape(loc))
+			if attr != "Location" {
+				ep += fmt.Sprintf(` ResponseLocation="%s"`, xmlAttrEscape(rloc))
+			}
+			if slot.indexed {
+				ep += idxAttrs
+			}
+			ep += "/>"
+			roles := fmt.Sprintf(`<%s protocolSupportEnumeration="urn:oasis:names:tc:SAML:2.0:protocol">%s</%s>`, slot.role, ep, slot.role)
+			// ParseMetadata / getSPMetadata look for IDP / SP descriptors inside EntitiesDescriptor
+			extra := `<IDPSSODescriptor protocolSupportEnumeration="urn:oasis:names:tc:SAML:2.0:protocol"><SingleSignOnService Binding="urn:oasis:names:tc:SAML:2.0:bindings:HTTP-POST" Location="https://ok.example.com/sso"/></IDPSSODescriptor>` +
+				`<SPSSODescriptor protocolSupportEnumeration="urn:oasis:names:tc:SAML:2.0:protocol"><AssertionConsumerService Binding="urn:oasis:names:tc:SAML:2.0:bindings:HTTP-POST" Location="https://ok.example.com/acs" index="9"/></SPSSODescriptor>`
+			ed := `<EntityDescriptor xmlns="urn:oasis:names:tc:SAML:2.0:metadata" entityID="https://peer.example.com/">` + roles + extra + `</EntityDescriptor>`
+			doc := ed
+			if wrap {
+				doc = `<EntitiesDescriptor xmlns="urn:oasis:names:tc:SAML:2.0:metadata">` + ed + `</EntitiesDescriptor>`
+			}
+			check := func(parser string, v interface{}, err error) {
+				t.Impl(1)
+				if err != nil {
+					t.Outcome("parse-failed")
+					return
+				}
+				var eps [][3]string
+				collectEndpoints(reflect.ValueOf(v), &eps)
+				for _, e := range eps {
+					for i, l := range []string{e[1], e[2]} {
+						what := []string{"Location", "ResponseLocation"}[i]
+						if l == "" {
+							continue
+						}
+						if !known[e[0]] {
+							t.Fail("C14/metadata/"+parser+"/unknown-binding-location-kept", "binding %q is unknown but %s %q survived parsing", e[0], what, l)
+							t.Input("metadata", doc)
+							continue
+						}
+						if sc := schemeOf(l); sc != "http" && sc != "https" {
+							t.Fail("C14/metadata/"+parser+"/non-http-location-accepted", "%s %q (scheme %q) of a %s endpoint survived parsing", what, l, sc, e[0])
+							t.Input("metadata", doc)
+						} else if pu, perr := url.Parse(l); perr != nil || pu.Scheme != "http" && pu.Scheme != "https" {
+							t.Fail("C14/metadata/"+parser+"/non-http-location-accepted", "%s %q does not parse as an http(s) URL", what, l)
+							t.Input("metadata", doc)
+						}
+					}
+				}
+				t.Outcome("parsed")
+			}
+			t.Compared()
+			_, p := guard(func() error {
+				if !wrap {
+					var v saml.EntityDescriptor
+					err := xml.Unmarshal([]byte(doc), &v)
+					check("xml.Unmarshal", &v, err)
+				} else {
+					var v saml.EntitiesDescriptor
+					err := xml.Unmarshal([]byte(doc), &v)
+					check("xml.Unmarshal", &v, err)
+				}
+				v2, err := samlsp.ParseMetadata([]byte(doc))
+				check("samlsp.ParseMetadata", v2, err)
+				// samlidp PUT /services/x then read back what was registered
+				srv, serr := samlidp.New(samlidp.Options{URL: harness.MustURL("https://idp.example.com"), Key: samlgen.Key("idp1").Key, Certificate: samlgen.Key("idp1").Cert, Store: &samlidp.MemoryStore{}, Logger: harness.NullLogger{}})
+				if serr == nil {
+					w := httptest.NewRecorder()
+					srv.ServeHTTP(w, httptest.NewRequest("PUT", "https://idp.example.com/services/x", strings.NewReader(doc)))
+					md, gerr := srv.GetServiceProvider(nil, "https://peer.example.com/")
+					if w.Code < 300 && gerr == nil {
+						check("samlidp.PUT", md, nil)
+					} else {
+						check("samlidp.PUT", nil, fmt.Errorf("status %d", w.Code))
+					}
+				}
+				return nil
+			})
+			if p != "" {
+				t.Fail("C14/metadata/panic@"+p[strings.LastIndex(p, "@")+1:], "metadata parser panicked: %s", p)
 			}
 		}
 	}
